@@ -73,6 +73,8 @@ def _tlc(module, cfg, workers, timeout, metaname, extra="", env=None, coverage=F
     cmd = (f"timeout {timeout} tlc -workers {workers} {cov} -metadir {meta} -cleanup -noGenerateSpecTE "
            f"{extra} -config {cfg} {module}")
     t = time.time()
+    env = dict(env or {})
+    env.setdefault("JAVA_TOOL_OPTIONS", "-Xss1g")      # deep recursion in the layout operators (Cat over hundreds of items)
     rc, out = sh(cmd, cwd=SPEC, env=env, timeout=timeout + 60)
     shutil.rmtree(meta, ignore_errors=True)
     return rc, out, time.time() - t
